@@ -29,4 +29,59 @@ for a, b in (("tw", "tr1"), ("tr1", "tw"), ("tw", "tr2"), ("tr2", "tw"), ("tw", 
     job("ver_%s_%s" % (a, b), "C07", entries=4, tier=("thorough" if a.startswith("tn") else "quick"), timeout=(3600 if a.startswith("tn") else 900))
 job("ver_tw_tr1_buf", "C07", tier="thorough", entries=4)
 job("ver_tw_tr1_bnd", "C07", tier="thorough", entries=4)
+# ---------------------------------------------------------------------------------------------------------
+# Modular, unbounded: skipping an unknown / deleted entry for EVERY declared size (all integer classes, up to 2^64-1)
+# and every buffer length up to 2^40.  Tower: (1) EncodingIO<uint64_t>::Read over PedanticBufferReader proved against
+# the little-endian class rules; (2) SkipEntry proved with (1) and PedanticBufferReader::Skip REPLACED by their
+# contracts (the latter is proved in unit rw, job c17_pr_skip, with the same text).
+out.append("c #define VT_MAXLEN (1UL << 40)")
+out.append("c unsigned char vt_p; unsigned long vt_dl; unsigned long vt_val;")
+out.append("c #define PB_PRE(r) (FRESH(r) && (r)->size_ <= VT_MAXLEN && (r)->index_ <= (r)->size_ && FRESHN((r)->buffer_, (r)->size_))")
+out.append("c #define PB_AVAIL(r) ((r)->size_ - OLD((r)->index_))")
+out.append("c #define LE1(r) ((unsigned long)(r)->buffer_[OLD((r)->index_) + 1])")
+out.append("c #define LE2(r) (LE1(r) | ((unsigned long)(r)->buffer_[OLD((r)->index_) + 2] << 8))")
+out.append("c #define LE4(r) (LE2(r) | ((unsigned long)(r)->buffer_[OLD((r)->index_) + 3] << 16) | ((unsigned long)(r)->buffer_[OLD((r)->index_) + 4] << 24))")
+out.append("c #define LE8(r) (LE4(r) | ((unsigned long)(r)->buffer_[OLD((r)->index_) + 5] << 32) | ((unsigned long)(r)->buffer_[OLD((r)->index_) + 6] << 40) | ((unsigned long)(r)->buffer_[OLD((r)->index_) + 7] << 48) | ((unsigned long)(r)->buffer_[OLD((r)->index_) + 8] << 56))")
+# ghosts: vt_p = prefix byte at the reader position, vt_dl = encoding length it selects (0: not an unsigned class)
+GH = "requires reader->index_ < reader->size_ ==> (vt_p == reader->buffer_[reader->index_] && vt_dl == VT_DECLEN_UINT(vt_p, 8))"
+out.append("contract nop::EncodingIO<unsigned long>::Read<nop::PedanticBufferReader>\n"
+  "  requires PB_PRE(reader) && FRESH(value)\n  " + GH + "\n"
+  "  assigns *value, reader->index_\n"
+  "  ensures reader->index_ <= reader->size_\n"
+  "  ensures ERR(RET) == 0 ==> (PB_AVAIL(reader) >= 1 && vt_dl != 0 && PB_AVAIL(reader) >= vt_dl)\n"
+  "  ensures (PB_AVAIL(reader) >= 1 && vt_dl != 0 && PB_AVAIL(reader) >= vt_dl) ==> (ERR(RET) == 0 && reader->index_ == OLD(reader->index_) + vt_dl)\n"
+  "  ensures (ERR(RET) == 0 && vt_dl == 1) ==> *value == vt_p\n"
+  "  ensures (ERR(RET) == 0 && vt_dl == 2) ==> *value == LE1(reader)\n"
+  "  ensures (ERR(RET) == 0 && vt_dl == 3) ==> *value == LE2(reader)\n"
+  "  ensures (ERR(RET) == 0 && vt_dl == 5) ==> *value == LE4(reader)\n"
+  "  ensures (ERR(RET) == 0 && vt_dl == 9) ==> *value == LE8(reader)\n"
+  "  ensures (PB_AVAIL(reader) >= 1 && vt_dl == 0) ==> (ERR(RET) == E_UnexpectedEncodingType && reader->index_ == OLD(reader->index_) + 1)\n"
+  "  ensures (PB_AVAIL(reader) == 0 || (vt_dl != 0 && PB_AVAIL(reader) < vt_dl)) ==> ERR(RET) == E_ReadLimitReached\n"
+  )
+out.append("job tb_fn_read_u64_ped\n  props C08 C04\n  pre vt_p = nondet_uchar(); vt_dl = nondet_ulong();\n  enforce nop::EncodingIO<unsigned long>::Read<nop::PedanticBufferReader>\n  timeout 900\n")
+out.append("contract nop::PedanticBufferReader::Skip(unsigned long)\n"
+  "  requires FRESH(this) && this->size_ <= VT_MAXLEN && this->index_ <= this->size_ && FRESHN(this->buffer_, this->size_)\n"
+  "  assigns this->index_\n"
+  "  ensures this->index_ <= this->size_\n"
+  "  ensures padding_bytes <= this->size_ - OLD(this->index_) ==> (ERR(RET) == 0 && this->index_ == OLD(this->index_) + padding_bytes)\n"
+  "  ensures padding_bytes > this->size_ - OLD(this->index_) ==> (ERR(RET) == E_ReadLimitReached && this->index_ == OLD(this->index_))\n")
+out.append("job tb_fn_ped_skip\n  props C08\n  enforce nop::PedanticBufferReader::Skip(unsigned long)\n")
+# the declared size as a ghost: vt_val == the little-endian value of the size field at the reader position
+VAL = ("requires (reader->index_ < reader->size_ && vt_dl != 0 && reader->size_ - reader->index_ >= vt_dl) ==> vt_val == "
+       "(vt_dl == 1 ? (unsigned long)vt_p : vt_dl == 2 ? (unsigned long)reader->buffer_[reader->index_ + 1] : "
+       "vt_dl == 3 ? ((unsigned long)reader->buffer_[reader->index_ + 1] | ((unsigned long)reader->buffer_[reader->index_ + 2] << 8)) : "
+       "vt_dl == 5 ? ((unsigned long)reader->buffer_[reader->index_ + 1] | ((unsigned long)reader->buffer_[reader->index_ + 2] << 8) | ((unsigned long)reader->buffer_[reader->index_ + 3] << 16) | ((unsigned long)reader->buffer_[reader->index_ + 4] << 24)) : "
+       "((unsigned long)reader->buffer_[reader->index_ + 1] | ((unsigned long)reader->buffer_[reader->index_ + 2] << 8) | ((unsigned long)reader->buffer_[reader->index_ + 3] << 16) | ((unsigned long)reader->buffer_[reader->index_ + 4] << 24) | "
+       "((unsigned long)reader->buffer_[reader->index_ + 5] << 32) | ((unsigned long)reader->buffer_[reader->index_ + 6] << 40) | ((unsigned long)reader->buffer_[reader->index_ + 7] << 48) | ((unsigned long)reader->buffer_[reader->index_ + 8] << 56)))")
+out.append("contract nop::Encoding<vt::TW>::SkipEntry<nop::PedanticBufferReader>\n"
+  "  requires PB_PRE(reader)\n  " + GH + "\n  " + VAL + "\n"
+  "  assigns reader->index_\n"
+  "  ensures reader->index_ <= reader->size_\n"
+  "  ensures (PB_AVAIL(reader) >= 1 && vt_dl != 0 && PB_AVAIL(reader) >= vt_dl && vt_val <= PB_AVAIL(reader) - vt_dl) ==> (ERR(RET) == 0 && reader->index_ == OLD(reader->index_) + vt_dl + vt_val)\n"
+  "  ensures (PB_AVAIL(reader) >= 1 && vt_dl != 0 && PB_AVAIL(reader) >= vt_dl && vt_val > PB_AVAIL(reader) - vt_dl) ==> ERR(RET) == E_ReadLimitReached\n"
+  "  ensures (PB_AVAIL(reader) >= 1 && vt_dl == 0) ==> ERR(RET) == E_UnexpectedEncodingType\n"
+  "  ensures (PB_AVAIL(reader) == 0 || (vt_dl != 0 && PB_AVAIL(reader) < vt_dl)) ==> ERR(RET) == E_ReadLimitReached\n")
+out.append("job tb_fn_skip_entry\n  props C08 C07\n  pre vt_p = nondet_uchar(); vt_dl = nondet_ulong(); vt_val = nondet_ulong();\n  enforce nop::Encoding<vt::TW>::SkipEntry<nop::PedanticBufferReader>\n"
+           "  replace nop::EncodingIO<unsigned long>::Read<nop::PedanticBufferReader>\n  replace nop::PedanticBufferReader::Skip(unsigned long)\n  timeout 900\n"
+           "  note modular and unbounded: every declared entry size (all classes, up to 2^64-1), every buffer length up to 2^40\n")
 print("\n".join(out))
